@@ -212,7 +212,7 @@ def job_str(run, k, rec):
 
 
 def snap_str(run, fin=None):
-    f = fin or R.snapshot(run)
+    f = fin or getattr(run, "final", None) or R.snapshot(run)     # `final` = the cut taken at rest, before the harness tears the run down
     return "c%d i%d b%d J %s W %s" % (1 if f["closed"] else 0, f["idle"], f["busy"],
                                       " ".join(job_str(run, k, rec) for k, rec in enumerate(run.jobs)),
                                       " ".join(f["workers"]))
@@ -245,6 +245,9 @@ def monitor(run, sc):
     if set(set.__iter__(idle)) & set(set.__iter__(busy)):
         run.violation = ("idle-and-busy", "a worker is in idle and busy at the same time")
         return
+    if run.in_process is not None:
+        rec = run.jobs[run.in_process]
+        rec["max_active"] = max(rec["max_active"], R.active_workers(run))
     for k, rec in enumerate(run.jobs):
         if rec["runs"] > 1:
             run.violation = ("ran-twice", "job %d was executed %d times" % (k, rec["runs"]))
@@ -252,9 +255,12 @@ def monitor(run, sc):
         if rec["status"] in ("n", "x") and rec["runs"]:
             run.violation = ("refused-but-ran", "job %d was refused (%s) and executed" % (k, rec["status"]))
             return
-        if rec["status"] == "n" and rec["busy_at_refusal"] != run.mx:
-            run.violation = ("refused-not-full", "job %d refused with NoFreeWorkersError while %d of %d workers were busy"
-                             % (k, rec["busy_at_refusal"], run.mx))
+        if rec["status"] == "n" and rec["max_active"] < run.mx:
+            # sound reading of "refused only when all workers are busy" for overlapping calls: at some instant of the
+            # process() call THREADPOOL_SIZE worker threads were alive and not waiting for a job
+            run.violation = ("refused-not-full", "job %d refused with NoFreeWorkersError although at most %d of %d workers "
+                             "were occupied at any instant of the call (len(busy) = %d when it raised)"
+                             % (k, rec["max_active"], run.mx, rec["busy_at_refusal"]))
             return
         if rec["status"] == "a" and rec["after_close"]:
             run.violation = ("job-after-close", "job %d was accepted by process() after close() had returned" % k)
@@ -401,16 +407,12 @@ def explore_scenario(ctx, mn, mx, progs, bound, max_runs, nrandom, rng, model_ou
         return bad, s
     for prefix, sc, run in random_order_explore(lambda pol: run_case(pol, mn, mx, progs), rng, bound, max_runs):
         bad, s = handle(sc, run)
-        if bad and not ctx.search_mode:
-            return
         if len(ctx.samples) < 5 and len(sc.trace) > 20 and rng.random() < 0.03:
             ctx.sample({"min": mn, "max": mx, "programs": [prog_tok(p) for p in progs],
                         "schedule": [t for t, _ in sc.trace], "final": s})
     for _ in range(nrandom):
         sc, run = run_case(S.random_policy(rng, rng.choice([0.2, 0.5, 0.8])), mn, mx, progs)
-        bad, s = handle(sc, run)
-        if bad and not ctx.search_mode:
-            return
+        handle(sc, run)
 
 
 def model_outcomes(scens):
@@ -499,9 +501,9 @@ def gen_ops(rng):
         if r < 0.5:
             ops.append(("S",))
             submitted += 1
-        elif r < 0.9 and submitted:
+        elif r < 0.92 and submitted:
             ops.append(("F", rng.randrange(submitted)))
-        elif r < 0.97 and (not closed or rng.random() < 0.3):
+        elif r < 0.97 and (not closed or rng.random() < 0.3) and len(ops) >= 2:
             ops.append(("C",))
             closed = True
         else:
@@ -599,6 +601,7 @@ def refusal_path(ctx):
         def reply(s):
             from Pyro5 import socketutil
             conn = socketutil.SocketConnection(s)
+            socks.append(conn)          # keep it alive: SocketConnection closes its socket when collected
             msg = protocol.recv_stub(conn, [protocol.MSG_CONNECTOK, protocol.MSG_CONNECTFAIL])
             payload = serializers.serializers_by_id[msg.serializer_id].loads(msg.data)
             return msg.type, payload
